@@ -13,8 +13,21 @@ split / join / lift / wrap / set_node_markup / set_block_type: the model evaluat
   * guard true on a valid normal-form document  =>  the real inverse restores the real document (`family_step`);
   * for the operation kinds whose theorem says so, the guard's parts are true.
 Counts per operation kind and part.
+
+Work package `wk-sbt` — whole operations:
+  * `set_block_type` to a *plain* target type (`Schema.plainType`: closed content automaton, every state a valid end;
+    computed here from `ContentMatch` and tied exactly to the model predicate by the request `plainType`): theorem
+    `setBlockType_residual` assembles the guards of every recorded step over the walk — so the `ReplaceStep`s of
+    `clear_incompatible` (deleting a child, a space for a newline) must have `shape` and `payload` true, the retype step
+    all its parts, and the `RemoveMarkStep`s satisfy the planners' guard (`clearRm_planGuard`; c04_marks, `planned`);
+  * node-level operations (`add_node_mark`, `remove_node_mark`, `set_node_attribute`): theorem `nodeOp_hist` — the one
+    recorded step is the node-level step at the operation's position (with the operation's mark / attribute);
+    `nodeOps_residual` — the guard `NodeOpGuard` evaluated on the operation's arguments is the `FamilyGuard` of that step
+    (request `nodeStepGuard`: attributes exact, `add_to_set` does not shrink the set, one mark per type, exclusion
+    symmetric); guard true on a valid normal-form document  =>  the real inverse restores the real document.
 """
-from prosemirror.transform import ReplaceAroundStep, ReplaceStep
+from prosemirror.model import Mark
+from prosemirror.transform import AddNodeMarkStep, AttrStep, RemoveNodeMarkStep, ReplaceAroundStep, ReplaceStep
 
 # the structural operations (theorems say which parts of the guard hold) and the replace family (`Transform.replace` and
 # friends go through `replace_step` / the Fitter: the guard of their recorded steps — normal-form slice, valid payload —
@@ -24,17 +37,110 @@ STRUCT = ("split", "join", "lift", "wrap", "set_node_markup", "set_block_type") 
 PARTS = ("shape", "payload", "hst", "gapFits", "aligned")
 
 
-def request(ctx, info, doc, step, res_doc, op, impl_ok, reqs, metas, replay):
+NODE_OPS = ("add_node_mark", "remove_node_mark", "set_node_attribute")
+NODE_STEPS = (AttrStep, AddNodeMarkStep, RemoveNodeMarkStep)
+NODE_PARTS = ("attrsExact", "noShrink", "uniqueTypes", "exclSym")
+
+
+def py_plain(ty):
+    """`Schema.plainType` on the real content automaton: every reachable state is a valid end (the automaton of a
+    `ContentMatch` is closed by construction; it has at least the start state)"""
+    seen, todo = [], [ty.content_match]
+    while todo:
+        m = todo.pop()
+        if any(m is x for x in seen):
+            continue
+        seen.append(m)
+        if not m.valid_end:
+            return False
+        todo.extend(e.next for e in m.next)
+    return True
+
+
+def request_plain(ctx, info, ty, reqs, metas, replay):
+    """tie of the plainness predicate (exact)"""
+    reqs.append({"op": "plainType", "s": info.lean_id, "type": info.nid[ty.name]})
+    metas.append(("plainType", dict(replay, type=ty.name), py_plain(ty)))
+
+
+def compare_plain(ctx, replay, payload, out):
+    if out.get("ok") is not payload:
+        ctx.mismatch("plainType", replay, payload, out)
+    else:
+        ctx.count("sbt-target:" + ("plain" if payload else "needy"))
+
+
+def request(ctx, info, doc, step, res_doc, op, impl_ok, reqs, metas, replay, plain=False):
     if op not in STRUCT or not isinstance(step, (ReplaceStep, ReplaceAroundStep)):
         return
     reqs.append({"op": "familyGuard", "s": info.lean_id, "doc": info.node(doc), "after": info.node(res_doc),
                  "step": info.step(step)})
-    metas.append(("familyGuard", dict(replay, op=op, step=step.to_json(), doc=doc.to_json()), (op, step, impl_ok)))
+    metas.append(("familyGuard", dict(replay, op=op, step=step.to_json(), doc=doc.to_json(), plain=plain),
+                  (op, step, impl_ok, plain)))
 
 
-def expected(op, step):
+def request_node(ctx, info, doc, step, res_doc, op, args, impl_ok, declared, reqs, metas, replay):
+    """a node-level step recorded by a node-level operation"""
+    if op not in NODE_OPS or not isinstance(step, NODE_STEPS):
+        return
+    reqs.append({"op": "nodeStepGuard", "s": info.lean_id, "doc": info.node(doc), "step": info.step(step)})
+    # nodeOp_hist: the recorded step sits at the operation's position and carries the operation's mark / attribute
+    at_op = step.pos == args[0]
+    if op == "add_node_mark":
+        at_op = at_op and isinstance(step, AddNodeMarkStep) and step.mark.eq(args[1])
+    elif op == "remove_node_mark":
+        at_op = at_op and isinstance(step, RemoveNodeMarkStep) and \
+            (step.mark.eq(args[1]) if isinstance(args[1], Mark) else step.mark.type is args[1])
+    else:
+        at_op = at_op and isinstance(step, AttrStep) and step.attr == args[1] and step.value == args[2]
+    metas.append(("nodeStepGuard", dict(replay, op=op, step=step.to_json(), doc=doc.to_json()),
+                  (op, impl_ok, declared, at_op)))
+
+
+def request_node_step(ctx, info, doc, step, impl_ok, reqs, metas, replay):
+    """a node-level step applied on its own (generated / aimed single steps: here the guard is often false — finding
+    C04-node-mark-inverse): the executable guard against the real undo"""
+    reqs.append({"op": "nodeStepGuard", "s": info.lean_id, "doc": info.node(doc), "step": info.step(step)})
+    metas.append(("nodeStepGuard", replay, ("step:" + type(step).__name__, impl_ok, True, True)))
+
+
+def compare_node(ctx, replay, payload, out):
+    op, impl_ok, declared, at_op = payload
+    if not isinstance(out.get("ok"), list):
+        ctx.mismatch("nodeStepGuard", replay, "guard parts", out)
+        return
+    *parts, inv = out["ok"]
+    vals = dict(zip(NODE_PARTS, parts))
+    guard = all(parts)
+    ctx.count(f"nodeguard:{op}:" + ("true" if guard else "false"))
+    for name in NODE_PARTS:
+        if not vals[name]:
+            ctx.count(f"nodeguard:{op}:not-{name}")
+    if not at_op:
+        ctx.mismatch("nodeOp_hist-theorem", replay, "the recorded step is the operation's step at its position", vals)
+    if not declared:
+        ctx.count("nodeguard:undeclared-attr")
+        return
+    if not inv:
+        ctx.count("nodeguard:doc-not-valid-normal")
+        return
+    if guard and not impl_ok:
+        ctx.mismatch("nodeOps_residual-theorem", replay, "NodeOpGuard holds => the real inverse restores", vals)
+    if guard:
+        ctx.count(f"nodeguard:{op}:guarded-restored")
+    elif impl_ok:
+        ctx.count(f"nodeguard:{op}:unguarded-restored")
+    else:
+        ctx.count(f"nodeguard:{op}:unguarded-not-restored")
+
+
+def expected(op, step, plain=False):
     """the parts the theorems say are true for a step of this operation (pair-alignment is a hypothesis of all of them)"""
     around = isinstance(step, ReplaceAroundStep)
+    if op == "set_block_type" and plain and not around:
+        # setBlockType_residual: a plain target type never asks for fillers; the ReplaceSteps are those of
+        # clear_incompatible (clearEditsGuard_family): closed, normal-form, valid payload
+        return ("shape", "payload", "hst", "gapFits", "gapClean")
     if op in ("join", "split") and not around:
         return ("shape", "payload", "hst", "gapFits", "gapClean")
     if op == "wrap" and around:
@@ -55,7 +161,7 @@ def expected(op, step):
 
 
 def compare(ctx, replay, payload, out):
-    op, step, impl_ok = payload
+    op, step, impl_ok, plain = payload
     kind = "around" if isinstance(step, ReplaceAroundStep) else "replace"
     if "ok" not in out or out["ok"] is None:
         ctx.mismatch("familyGuard", replay, "guard parts", out)
@@ -64,6 +170,8 @@ def compare(ctx, replay, payload, out):
     vals = dict(zip(PARTS, parts), gapClean=clean)
     guard = all(parts)
     ctx.count(f"opguard:{op}:{kind}:" + ("true" if guard else "false"))
+    if op == "set_block_type":
+        ctx.count(f"opguard:set_block_type:{'plain' if plain else 'needy'}:{kind}:" + ("true" if guard else "false"))
     for name in PARTS + ("gapClean",):
         if not vals[name]:
             ctx.count(f"opguard:{op}:{kind}:not-{name}")
@@ -72,6 +180,6 @@ def compare(ctx, replay, payload, out):
         return
     if guard and not impl_ok:
         ctx.mismatch("family_step-theorem", replay, "guard holds => the real inverse restores", vals)
-    for name in expected(op, step):
+    for name in expected(op, step, plain):
         if not vals[name]:
             ctx.mismatch("opGuard-theorem", replay, f"{op}: {name} holds", vals)
